@@ -12,6 +12,11 @@ rnd, out = sys.argv[1], sys.argv[2]
 props = [json.loads(l) for l in open("/verif/properties.jsonl")]
 os.makedirs(out, exist_ok=True)
 KINDS = {
+    "9": ("mut1 must be a commit of any kind whose regression shows only when TWO public features are combined (for example retry with a registry, fresh_time with "
+          "dependent sources, transform_physical with dry_run, scopes with progress displays, max_errors with stale_check_max_workers, a MountedStore around a "
+          "file store, plan.copy() with a registry, unpack / gather with stored values) - each feature alone keeps working\n"
+          "  mut2 must be a commit of any kind whose regression shows only on the SECOND or later use of some object or of the process (a plan run twice, a store "
+          "written or read twice, a registry extended after a run, a Progress reused, the second run in one interpreter, the second call of the same function object)"),
     "8": ("mut1 must be a BUG-FIX commit: it fixes a real or plausible small issue (an edge case, a confusing error message, a resource that is held too long, a "
           "warning under a newer Python) and the fix itself is correct - but the way it is done regresses the property\n"
           "  mut2 must be a change in a file (or function) that NONE of the earlier changes listed below touched, of any commit kind you like"),
